@@ -76,7 +76,8 @@ def blocked_interval_rule(ctx: Ctx, rid: str):
     def unclamp(e):
         # max(x, 0) / min(x, size): clipping to the slot table does not move a bound that lies inside it
         while isinstance(e, ast.Call) and isinstance(e.func, ast.Name) and e.func.id in ("max", "min") and len(e.args) == 2:
-            rest = [a for a in e.args if not (isinstance(a, ast.Constant) or norm(a) in ("size", "self.project.scoreboardSize()", "len(self.scoreboard)"))]
+            rest = [a for a in e.args if not (isinstance(a, ast.Constant) or norm(a) in (
+                "size", "self.project.scoreboardSize()", "len(self.scoreboard)", "size - 1", "self.project.scoreboardSize() - 1", "len(self.scoreboard) - 1"))]
             if len(rest) != 1:
                 break
             e = rest[0]
@@ -214,6 +215,29 @@ def day_range_rule(ctx: Ctx, rid: str):
     ctx.ob(rid, f"{fn.qual}: orderings handled {covered}", fn, okc, "first < last, first = last and first > last all yield the forward range" if okc else
            "an ordering of the two days has no correct form: a wrap-around range such as `fri - mon` or `sun - tue` gets the wrong days",
            key=key_of_text(rid, fn.qual, "orderings"))
+
+
+def aware_conversion_rule(ctx: Ctx, rid: str):
+    """UTC -> local time of a resource goes through an aware datetime: in WorkingHours._convert_to_timezone every returned value
+    that is not the input itself is derived from `.astimezone(` (or `tz.fromutc(`) applied to the UTC-tagged instant.  A zone
+    offset looked up with the naive UTC value read as local wall-clock time is off by the DST step around every switch."""
+    fn = ctx.repo.func("WorkingHours._convert_to_timezone")
+    fd = ctx.dep.of(fn)
+    p_dt = fn.params[1] if len(fn.params) > 1 else "dt"
+    n = 0
+    for r in returns(fn):
+        if r.value is None or (isinstance(r.value, ast.Name) and r.value.id == p_dt) or (isinstance(r.value, ast.Constant) and r.value.value is None):
+            continue
+        atoms = data(fd.deps_of(r.value))
+        n += 1
+        ok = bool(atoms & {"call:astimezone", "call:fromutc"})
+        ctx.ob(rid, f"{fn.qual}: return {norm(r.value)[:50]}", (fn, r), ok,
+               "the local time is obtained by converting the UTC-tagged instant" if ok else
+               "the local time is computed without astimezone()/fromutc() on the UTC instant (an offset taken for the naive value, or a "
+               "remembered one): wrong by the DST step in the hours around each switch",
+               key=key_of(rid, fn, r.value, "aware conversion"))
+    if not n:
+        raise AnchorMissing("_convert_to_timezone: no converting return found")
 
 
 def run(ctx: Ctx):
@@ -480,6 +504,7 @@ def run(ctx: Ctx):
     memo_rule(ctx, "R02.8")
     blocked_interval_rule(ctx, "R02.13")
     day_range_rule(ctx, "R02.14")
+    aware_conversion_rule(ctx, "R02.15")
     ctx.floor("R02.14", 5)
     # ---------------------------------------------------------------- R02.10 project-level working hours reach the default calendar
     # the grammar accepts `workinghours` as a project attribute and the builder stores it; the calendar used for resources
